@@ -1,2 +1,175 @@
-(* C08 — property theorems (being filled in). *)
-From HV Require Import Model.Executor.
+(* C08 — the parallel executor never runs conflicting tasks concurrently or out of order.
+
+   All theorems are about the labelled transition system Model/Executor.v (labels = lock-delimited regions
+   of internal/executor/executor.go) and quantify over ALL traces [steps c init tr s]: any interleaving of
+   the labels, any number of workers, tasks and keys.  The event log [log s] is newest-first:
+   [log s = l1 ++ e :: l2] means that the events of l2 happened before e and those of l1 after e.
+
+   [cfg_ok c] is the constructor's contract as far as the model needs it:
+     - length (c_ts c) <= c_maxd c   (a task depends only on earlier tasks, so this implies the documented
+                                      "no task has maxDependencies or more dependencies"; the two call
+                                      sites pass maxDependencies = 100000000),
+     - the keys of one task are pairwise distinct (state.Keys is a Go map).
+   C08_contract_needed shows that the first condition cannot be dropped. *)
+From Coq Require Import List NArith ZArith Bool Arith.
+Import ListNotations.
+From HV Require Import Model.Executor Proofs.Executor_proofs.
+
+(* No double enqueue and no write to the blocked map of an executed task, ever. *)
+Theorem C08_no_broken : forall c tr s, cfg_ok c -> steps c init tr s -> broken s = false.
+Proof. exact exec_no_broken. Qed.
+Print Assumptions C08_no_broken.
+
+(* f of a task begins at most once. *)
+Theorem C08_once : forall c tr s, cfg_ok c -> steps c init tr s ->
+  forall t l1 l2, log s = l1 ++ EvBegin t :: l2 -> ~ In (EvBegin t) l1 /\ ~ In (EvBegin t) l2.
+Proof. exact exec_once. Qed.
+Print Assumptions C08_once.
+
+(* the property's notion of conflict (shared key, one side more than read) is contained in the code's
+   (shared key, one side not exactly Read) *)
+Theorem C08_conflict_spec_sub : forall a b, conflict_spec a b = true -> conflict a b = true.
+Proof. exact conflict_spec_conflict. Qed.
+Print Assumptions C08_conflict_spec_sub.
+
+(* Main theorem: if tasks i < j (queue order) conflict and f of j began, then before that f of i
+   ended successfully, and before that f of i began: the two executions do not overlap and respect the
+   queue order; in particular j starts only after every earlier conflicting task finished. *)
+Theorem C08_order : forall c tr s, cfg_ok c -> steps c init tr s ->
+  forall i j ti tj, i < j ->
+    nth_error (c_ts c) i = Some ti -> nth_error (c_ts c) j = Some tj ->
+    conflict_spec ti tj = true ->
+  forall l1 l2, log s = l1 ++ EvBegin j :: l2 ->
+    In (EvEnd i true) l2 /\ exists l3 l4, l2 = l3 ++ EvEnd i true :: l4 /\ In (EvBegin i) l4.
+Proof. intros c tr s. apply exec_order_gen. exact more_than_read_not_read. Qed.
+Print Assumptions C08_order.
+
+(* the same for the code's (larger) conflict relation *)
+Theorem C08_order_code : forall c tr s, cfg_ok c -> steps c init tr s ->
+  forall i j ti tj, i < j ->
+    nth_error (c_ts c) i = Some ti -> nth_error (c_ts c) j = Some tj ->
+    conflict ti tj = true ->
+  forall l1 l2, log s = l1 ++ EvBegin j :: l2 ->
+    In (EvEnd i true) l2 /\ exists l3 l4, l2 = l3 ++ EvEnd i true :: l4 /\ In (EvBegin i) l4.
+Proof.
+  intros c tr s. apply exec_order_gen. intros p H. apply negb_true_iff in H. exact H.
+Qed.
+Print Assumptions C08_order_code.
+
+(* No deadlock, progress form: in every reachable state some label is enabled unless every queued task
+   went through its deferred function (which is when Wait returns). *)
+Theorem C08_progress : forall c tr s, cfg_ok c -> 1 <= c_nw c -> steps c init tr s ->
+  all_done c s \/ exists l s', l <> LStop /\ step c s l = Some s'.
+Proof. exact exec_progress. Qed.
+Print Assumptions C08_progress.
+
+(* conversely, in a final state nothing but Stop (which is always possible) can happen *)
+Theorem C08_done_stuck : forall c tr s, cfg_ok c -> steps c init tr s -> all_done c s ->
+  forall l, l <> LStop -> step c s l = None.
+Proof. exact exec_done_stuck. Qed.
+Print Assumptions C08_done_stuck.
+
+(* A state in which no label other than Stop is enabled is a final state (all tasks registered and done); if the trace contains
+   no Stop and no failing f, the error is nil and every task ran (began and ended successfully; exactly
+   once by C08_once). *)
+Theorem C08_all_run : forall c tr s, cfg_ok c -> 1 <= c_nw c -> steps c init tr s ->
+  (forall l, l <> LStop -> step c s l = None) ->
+  all_done c s /\
+  (~ In LStop tr -> (forall t, ~ In (LFEnd t false) tr) ->
+   err s = None /\ forall j, j < length (c_ts c) -> In (EvBegin j) (log s) /\ In (EvEnd j true) (log s)).
+Proof. exact exec_all_run. Qed.
+Print Assumptions C08_all_run.
+
+(* The sticky error (what Wait returns) is the first recorded error (first CompareAndSwap winner); after
+   an error was recorded no f begins any more (tasks whose check comes later are skipped); a recorded
+   task error comes from a failing f, ErrStopped from a Stop call. *)
+Theorem C08_first_error : forall c tr s, cfg_ok c -> steps c init tr s ->
+  err s = first_err (log s) /\
+  (forall l1 e l2, log s = l1 ++ EvErr e :: l2 -> forall t, ~ In (EvBegin t) l1) /\
+  (forall t, In (EvErr (ETask t)) (log s) -> In (EvEnd t false) (log s) /\ In (LFEnd t false) tr) /\
+  (In (EvErr EStop) (log s) -> In LStop tr).
+Proof. exact exec_first_error. Qed.
+Print Assumptions C08_first_error.
+
+(* The channel never holds more entries than there are tasks: with capacity items >= #tasks (constructor
+   contract) a send never blocks, which is why the model may use an unbounded FIFO. *)
+Theorem C08_queue_bound : forall c tr s, cfg_ok c -> steps c init tr s ->
+  length (queue s) <= length (c_ts c).
+Proof. exact exec_queue_bound. Qed.
+Print Assumptions C08_queue_bound.
+
+(* ---- non-vacuity ---------------------------------------------------------------------------------- *)
+
+(* [{k:R},{k:R},{k:W}] with 2 workers; the writer registers while task 0 runs and is notified by task 0
+   during its registration (the maxDependencies offset is in use). *)
+Definition ex_c : cfg := mkC [[(0%N,1%N)]; [(0%N,1%N)]; [(0%N,5%N)]] 100 2.
+Definition ex_tr : list label :=
+  [LRunBegin; LRunKey 0%N; LRunEnd; LRunBegin; LRunKey 0%N; LRunEnd; LTake; LCheck 0;
+   LRunBegin; LRunKey 0%N; LFEnd 0 true; LSetErr 0; LNotify 0; LRunEnd;
+   LTake; LCheck 1; LFEnd 1 true; LSetErr 1; LUnread 1 0; LNotify 1;
+   LTake; LCheck 2; LFEnd 2 true; LSetErr 2; LNotify 2].
+
+Example C08_ex_cfg_ok : cfg_ok ex_c.
+Proof. apply cfg_ok_b. vm_compute. reflexivity. Qed.
+
+Example C08_ex_conflict : conflict_spec (nth 1 (c_ts ex_c) []) (nth 2 (c_ts ex_c) []) = true /\
+                          conflict_spec (nth 0 (c_ts ex_c) []) (nth 1 (c_ts ex_c) []) = false.
+Proof. vm_compute. split; reflexivity. Qed.
+
+Example C08_ex_run : exists s, steps ex_c init ex_tr s /\ all_done ex_c s /\
+  (forall l, l <> LStop -> step ex_c s l = None) /\
+  ~ In LStop ex_tr /\ (forall t, ~ In (LFEnd t false) ex_tr) /\
+  log s = [EvEnd 2 true; EvBegin 2; EvEnd 1 true; EvBegin 1; EvEnd 0 true; EvBegin 0] /\ err s = None.
+Proof.
+  destruct (run_labels_witness ex_c ex_tr
+              (fun s => all_doneb ex_c s = true /\
+                 log s = [EvEnd 2 true; EvBegin 2; EvEnd 1 true; EvBegin 1; EvEnd 0 true; EvBegin 0] /\
+                 err s = None)) as (s & Hst & Hd & Hl & He).
+  { vm_compute. repeat split; reflexivity. }
+  exists s. apply all_doneb_ok in Hd. split; [exact Hst|]. split; [exact Hd|].
+  split; [exact (C08_done_stuck ex_c ex_tr s C08_ex_cfg_ok Hst Hd)|].
+  split; [|split; [|split; [exact Hl|exact He]]].
+  - intros H. cbn in H. repeat (destruct H as [H|H]; [discriminate|]). exact H.
+  - intros t H. cbn in H. repeat (destruct H as [H|H]; [discriminate|]). exact H.
+Qed.
+
+(* two readers overlap between two writers: [{k:W},{k:R},{k:R},{k:W}] *)
+Definition ex2_c : cfg := mkC [[(0%N,5%N)]; [(0%N,1%N)]; [(0%N,1%N)]; [(0%N,5%N)]] 100 2.
+Definition ex2_tr : list label :=
+  [LRunBegin; LRunKey 0%N; LRunEnd; LRunBegin; LRunKey 0%N; LRunEnd; LRunBegin; LRunKey 0%N; LRunEnd;
+   LRunBegin; LRunKey 0%N; LRunEnd;
+   LTake; LCheck 0; LFEnd 0 true; LSetErr 0; LNotify 0;
+   LTake; LTake; LCheck 1; LCheck 2; LFEnd 2 true; LFEnd 1 true; LSetErr 1; LSetErr 2;
+   LUnread 1 0; LNotify 1; LUnread 2 0; LNotify 2;
+   LTake; LCheck 3; LFEnd 3 true; LSetErr 3; LNotify 3].
+Example C08_ex2_run : cfg_ok ex2_c /\
+  match run_labels ex2_c init ex2_tr with
+  | Some s => all_doneb ex2_c s = true /\
+              log s = [EvEnd 3 true; EvBegin 3; EvEnd 1 true; EvEnd 2 true; EvBegin 2; EvBegin 1;
+                       EvEnd 0 true; EvBegin 0]
+  | None => False
+  end.
+Proof. split; [apply cfg_ok_b; vm_compute; reflexivity|vm_compute; split; reflexivity]. Qed.
+
+(* a failing task and a Stop: the first error wins, later tasks are skipped, Wait still returns *)
+Definition ex_tr_fail : list label :=
+  [LRunBegin; LRunKey 0%N; LRunEnd; LRunBegin; LRunKey 0%N; LRunEnd; LTake; LCheck 0;
+   LRunBegin; LRunKey 0%N; LFEnd 0 false; LSetErr 0; LStop; LNotify 0; LRunEnd;
+   LTake; LCheck 1; LUnread 1 0; LNotify 1; LTake; LCheck 2; LNotify 2].
+Example C08_ex_fail :
+  match run_labels ex_c init ex_tr_fail with
+  | Some s => all_doneb ex_c s = true /\ err s = Some (ETask 0) /\
+              log s = [EvErr EStop; EvErr (ETask 0); EvEnd 0 false; EvBegin 0]
+  | None => False
+  end.
+Proof. vm_compute. repeat split; reflexivity. Qed.
+
+(* The contract is needed: with maxDependencies = 1 < #tasks the model reaches a double enqueue and
+   task 1 runs twice. *)
+Definition bad_c : cfg := mkC [[(0%N,5%N)]; [(0%N,5%N)]] 1 1.
+Definition bad_tr : list label :=
+  [LRunBegin; LRunKey 0%N; LRunEnd; LRunBegin; LRunKey 0%N; LTake; LCheck 0; LFEnd 0 true; LSetErr 0;
+   LNotify 0; LRunEnd; LTake; LCheck 1; LFEnd 1 true; LSetErr 1; LNotify 1; LTake; LCheck 1].
+Example C08_contract_needed : exists s, steps bad_c init bad_tr s /\ broken s = true /\
+  log s = [EvBegin 1; EvEnd 1 true; EvBegin 1; EvEnd 0 true; EvBegin 0].
+Proof. apply run_labels_witness. vm_compute. split; reflexivity. Qed.
